@@ -27,6 +27,14 @@ def parseOp (ws : List String) : Option Op :=
   | ["range"] => some .range
   | _ => none
 
+/-- the nested calls of `rangedo`: words separated by a lone `;` -/
+def splitSemi (ws : List String) : List (List String) :=
+  ws.foldr (fun w acc =>
+    if w == ";" then [] :: acc
+    else match acc with
+      | [] => [[w]]
+      | a :: r => (w :: a) :: r) [[]]
+
 /-- `model := true`: the executable model the C04 theorems are about (checks capacity too);
     `model := false`: the abstract sequence only. -/
 def checker (model : Bool) : Checker where
@@ -126,21 +134,27 @@ def checker (model : Bool) : Checker where
         else (st, none)
       | _, _, _ => (st, some s!"bad-op {op}")
     | "rangedo" :: ks :: nestedWs =>
-      -- Range whose callback, when shown index k, makes one ordinary call (copy-on-write lists only):
-      -- Range shows the contents at invocation, the nested call is an ordinary step.
-      match st, ks.toNat?, parseOp nestedWs, obsCap with
-      | some x, some k, some o, some c =>
+      -- Range whose callback, when shown index k, makes one or more ordinary calls (`op ; op ; …`;
+      -- copy-on-write lists only): Range walks the sequence as it was when Range was called, whatever
+      -- the list went through before (spare capacity left by earlier growth included) and whatever the
+      -- re-entrant calls do; the nested calls are ordinary steps, each judged against the state the
+      -- previous one left.
+      match st, ks.toNat?, (splitSemi nestedWs).mapM parseOp, obsCap with
+      | some x, some k, some os, some c =>
         let shown := s!"ok:{renderSlice x.vals}"
-        let fires := decide (k < x.vals.length)
-        let (x', nestedWant) : AnyList × String :=
-          if !fires then (x, "-")
-          else if model then let (y, out) := x.step c o; (y, renderOut out)
-          else
-            let (s', out) := Spec.step x.vals o
-            (match x with
-              | .array a => .array ⟨⟨s', a.s.cap⟩⟩
-              | .cow a => .cow ⟨⟨s', a.s.cap⟩⟩
-              | .linked _ => .linked s', renderOut out)
+        let fires := decide (k < x.vals.length) && !os.isEmpty
+        let (x', outs) : AnyList × List String :=
+          if !fires then (x, [])
+          else os.foldl (fun (acc : AnyList × List String) o =>
+            let y := acc.1
+            if model then let (y', out) := y.step c o; (y', acc.2 ++ [renderOut out])
+            else
+              let (s', out) := Spec.step y.vals o
+              (match y with
+                | .array a => .array ⟨⟨s', a.s.cap⟩⟩
+                | .cow a => .cow ⟨⟨s', a.s.cap⟩⟩
+                | .linked _ => .linked s', acc.2 ++ [renderOut out])) (x, [])
+        let nestedWant := if fires then ";".intercalate outs else "-"
         let got := resultTok obs
         if shown ≠ got then (some x', some s!"Range during a re-entrant call must show the snapshot: want {shown} got {got}")
         else if field obs "nested" ≠ some nestedWant then (some x', some s!"nested call result want {nestedWant} got {field obs "nested"}")
